@@ -102,6 +102,9 @@ void CommonLoop::runThisAfterLoop()
         CHECK_DELETE_RESET_OBJ(sp_run_read_event_);
         CHECK_CLOSE_RESET_FD(run_event_fd_);
     }
+    //! 未被处理的唤醒请求随 eventfd 一同失效，必须复位。
+    //! 否则再次 runLoop() 后，runInLoop() 将一直认为已提交过唤醒请求而不再写 eventfd
+    has_commit_run_req_ = false;
 }
 
 void CommonLoop::beginLoopProcess()
